@@ -13,12 +13,9 @@ macro_rules! impl_datatype_partial_eq {
                     (Self::Bool(a), Self::Bool(b)) => a == b,
                     (Self::Blob(a), Self::Blob(b)) => a == b,
 
-                    // Numeric types are promoted to f64 to compare
+                    // Numeric types compare by mathematical value (integers exactly)
                     (a, b) if a.is_numeric() && b.is_numeric() => {
-                        match (a.to_f64(), b.to_f64()) {
-                            (Some(x), Some(y)) => x == y,
-                            _ => false,
-                        }
+                        a.numeric_cmp(b) == Some(Ordering::Equal)
                     }
 
                     // Different type categories are not equal
@@ -44,13 +41,8 @@ macro_rules! impl_datatype_partial_ord {
                     // Blob uses lexicographic ordering
                     (Self::Blob(a), Self::Blob(b)) => a.partial_cmp(b),
 
-                    // Numeric types are promoted to f64 and compared
-                    (a, b) if a.is_numeric() && b.is_numeric() => {
-                        match (a.to_f64(), b.to_f64()) {
-                            (Some(x), Some(y)) => x.partial_cmp(&y),
-                            _ => None,
-                        }
-                    }
+                    // Numeric types compare by mathematical value (integers exactly)
+                    (a, b) if a.is_numeric() && b.is_numeric() => a.numeric_cmp(b),
 
                     // Different type categories cannot be compared
                     _ => None,
@@ -60,9 +52,60 @@ macro_rules! impl_datatype_partial_ord {
     };
 }
 
+/// Compares an integer with a float by mathematical value (None for NaN).
+pub fn cmp_int_with_float(i: i128, f: f64) -> Option<std::cmp::Ordering> {
+    use std::cmp::Ordering;
+    if f.is_nan() {
+        return None;
+    }
+    // beyond the range of every integer kind (i64 / u64)
+    if f >= 3.0e19 {
+        return Some(Ordering::Less);
+    }
+    if f <= -3.0e19 {
+        return Some(Ordering::Greater);
+    }
+    let whole = f.trunc();
+    match i.cmp(&(whole as i128)) {
+        Ordering::Equal => 0.0f64.partial_cmp(&(f - whole)),
+        other => Some(other),
+    }
+}
+
+/// Exact comparison of numeric values: integer kinds through i128, floats through f64,
+/// integer against float by mathematical value. Comparing everything through f64 makes
+/// distinct 64-bit integers beyond 2^53 equal.
+#[macro_export]
+macro_rules! impl_datatype_numeric_cmp {
+    ($($type_name:tt)+) => {
+        impl $($type_name)+ {
+            fn as_exact_integer(&self) -> Option<i128> {
+                match self {
+                    Self::Int(v) => Some(v.0 as i128),
+                    Self::BigInt(v) => Some(v.0 as i128),
+                    Self::UInt(v) => Some(v.0 as i128),
+                    Self::BigUInt(v) => Some(v.0 as i128),
+                    _ => None,
+                }
+            }
+
+            fn numeric_cmp(&self, other: &Self) -> Option<Ordering> {
+                match (self.as_exact_integer(), other.as_exact_integer()) {
+                    (Some(a), Some(b)) => Some(a.cmp(&b)),
+                    (Some(a), None) => $crate::types::macros::datatype::cmp_int_with_float(a, other.to_f64()?),
+                    (None, Some(b)) => $crate::types::macros::datatype::cmp_int_with_float(b, self.to_f64()?)
+                        .map(Ordering::reverse),
+                    (None, None) => self.to_f64()?.partial_cmp(&other.to_f64()?),
+                }
+            }
+        }
+    };
+}
+
 #[macro_export]
 macro_rules! impl_datatype_ord_traits {
     ($($type_name:tt)+) => {
+        $crate::impl_datatype_numeric_cmp!($($type_name)+);
         $crate::impl_datatype_partial_eq!($($type_name)+);
         $crate::impl_datatype_partial_ord!($($type_name)+);
 
